@@ -9,6 +9,7 @@ from ..facts import callee, op_place, strip_generics
 from ..flow import Defs, backward_slice, slice_calls, slice_strs, rv_operands
 
 LEVEL = 'other'
+TECHNIQUE = 'static analysis: provenance of decoded values and parse targets (generic helpers inlined with type substitution), case evaluation of the content-type gates and of the extractors by abstract interpretation, panic-site audit with guarded-subtraction discharge, JSON end() dominance'
 CLAUSE = ('path parameters are percent-decoded by exactly one call whose input is the raw segment itself and whose output is handed on '
           'unmodified; each typed path value is produced by str::parse of exactly the visited type with no numeric cast; JSON / form '
           'bodies are deserialised only after a content-type gate that accepts application/json|application/*+json resp. '
